@@ -14,6 +14,7 @@ import (
 	"github.com/hashicorp/hcl/v2/hclsyntax"
 
 	"hx/lib"
+	"hx/props/histgen"
 )
 
 func init() { lib.Register("C02", run) }
@@ -327,6 +328,7 @@ func run(cx *lib.Ctx) {
 		return
 	}
 	res.Rule = "random abstract body trees (attributes over the whole expression grammar incl. heredocs, blocks with 0..6 labels over an alphabet with quotes, backslashes, $, %, ${, %{, unicode, control characters, empty; nesting to depth 7; many repeated blocks) each rendered in 6 layouts (canonical + 5 random: spacing incl. zero-width gaps, tabs, blank lines, #, // and /* */ comments incl. multi-line ones between any two tokens, LF/CRLF, no final newline, BOM, bare/quoted labels, alternative escape spellings, one-line/multi-line block form, values spanning lines); every rendering must parse without errors to the written tree (DumpBody, Content, JustAttributes); a second stream inserts a duplicate attribute definition into some body and every rendering must be rejected; non-trivial = tree has at least one block or two attributes; distinct by source text"
+	histgen.Run(cx, "C02")
 
 	for _, t := range handTrees() {
 		exp := t.dump()
